@@ -180,3 +180,46 @@ def outs_of(cfg):
     if k in ("ForEach", "Void", "Fold"):
         return ["res"]
     return ["out"]
+
+
+TRACEI_CFG = """CONSTANTS
+ Cfgs <- TrCfgs
+ QStep = FALSE
+INIT TInit
+NEXT TNext
+VIEW TView
+INVARIANT HighWater
+CHECK_DEADLOCK FALSE
+"""
+STAGE_KINDS = {"Map", "FMap", "Filter", "ForEach", "Void", "Fold", "Partition", "Take", "TakeWhile"}
+
+
+def bind_stage(traces, d, tag="i", chunk=250):
+    """TRACE-I for the Stage model: returns (accepted, rejected list of (trace index, high-water window), TLC results).
+    Only traces of the stage family without harness-side panics take part."""
+    from concurrent.futures import ThreadPoolExecutor
+    idx = [i for i, t in enumerate(traces) if t["cfg"]["kind"] in STAGE_KINDS and not t.get("crash") and t["wins"]
+           and not any(e["e"] in ("sendpanic", "closepanic") for w in t["wins"] for e in w["done"])]
+    starts = list(range(0, len(idx), chunk))
+
+    def one(c0):
+        part = idx[c0:c0 + chunk]
+        slim = [{"cfg": traces[i]["cfg"], "outs": traces[i]["outs"], "nin": traces[i]["nin"], "wins": traces[i]["wins"]} for i in part]
+        tf = os.path.join(d, "%s_bind_%d.json" % (tag, c0))
+        with open(tf, "w") as f:
+            json.dump({"traces": slim}, f)
+        r = run_tlc("StageTraceI", TRACEI_CFG, env={"TRACE_FILE": tf}, timeout=1800, workers=4)
+        if r.violated:
+            raise Infra("StageTraceI stopped: " + r.out[-2000:])
+        hw = {}
+        for v in r.json_prints("HW"):
+            hw[v["ti"]] = max(hw.get(v["ti"], 0), v["w"])
+        rej = [(part[k], hw.get(k + 1, 0)) for k in range(len(part)) if hw.get(k + 1, 0) < len(traces[part[k]]["wins"])]
+        return len(part) - len(rej), rej, r
+    acc, rej, res = 0, [], []
+    with ThreadPoolExecutor(4) as ex:
+        for a, rj, r in ex.map(one, starts):
+            acc += a
+            rej += rj
+            res.append(r)
+    return acc, rej, res
